@@ -30,7 +30,9 @@ def cases(tier):
         for ctx in ("y ~ {}", "y ~ 0 + {}", "y ~ x:{}", "y ~ ({}|h)" if tier != "quick" else None):
             if ctx is None or (ctx.startswith("y ~ (") and a.startswith(("B(", "standardize"))):
                 continue
-            out.append(("alias", a, (b, ctx)))
+            out.append(("alias", a, (b, ctx, "str")))
+            if "(g" in a and "levels=" not in a:
+                out.append(("alias", a, (b, ctx, "ord")))  # ordered categorical column: declared (non-sorted) level order
     out += [("alias_resp", a, b) for a, b in (("p(s, n)", "prop(s, n)"), ("proportion(s, n)", "prop(s, n)"), ("p(s, 9)", "proportion(s, 9)"))]
     return out
 
@@ -200,9 +202,9 @@ def harness(env, case):
         env.prove(list(dm2.common.terms) == list(dm.common.terms), "{e} and I(e) have the same term name")
         return
     if kind == "alias":
-        other, ctxf = b
+        other, ctxf, fv = b
         f1, f2 = ctxf.format(a), ctxf.format(other)
-        df, rows = gen.build_frame(env, gen.used_vars(f1 + " " + f2), "str", "scramble", min_rows=4)
+        df, rows = gen.build_frame(env, gen.used_vars(f1 + " " + f2), fv, "scramble", min_rows=4)
         # names that collide with the helpers are bound in the caller's namespace: built-ins must still win
         ns = {"gl": ["u", "s", "t"], "B": 3, "T": 300.0, "S": 12, "p": 0.05, "standardize": (lambda v: v), "binary": None, "C": "c", "I": 1}
         try:
